@@ -177,11 +177,37 @@ def mix_energy(ctx, d1, d2):
     else:
         d2.ok('Stream.mix_from', 'self.P = min(P of the non-empty inlets) before the H solve on all %d multi-inlet paths' % nP, f)
     # the filter: streams holds exactly the non-empty Stream inlets
+    # decided on the paths through one iteration of the loop over the inlets: the inlet is appended to the mixed list only after
+    # `inlet.isempty()` was found false (in whatever form it is tested), and every non-empty Stream inlet is appended
+    from ..pathcond import resolved_conds
     okf = False
     for n in walk_no_nested(f.node):
-        if isinstance(n, ast.For) and src(n.iter) == f.params[1]:
-            body = ' '.join(ast.unparse(ast.Module(body=n.body, type_ignores=[])).split())
-            okf = ('not %s.isempty()' % n.target.id in body and '%s.append(%s)' % (L, n.target.id) in body)
+        if isinstance(n, ast.For) and src(n.iter) == f.params[1] and isinstance(n.target, ast.Name):
+            x = n.target.id
+            body_fn = ast.FunctionDef(name='_iteration', args=ast.arguments(posonlyargs=[], args=[], kwonlyargs=[], kw_defaults=[], defaults=[]),
+                                      body=n.body, decorator_list=[], lineno=n.lineno, col_offset=0)
+            pre = Lin()
+            for st_ in f.node.body:
+                if st_ is n:
+                    break
+                if isinstance(st_, ast.Assign) and len(st_.targets) == 1 and isinstance(st_.targets[0], ast.Name) and isinstance(st_.value, ast.Name):
+                    pre.exec_stmt(st_)
+            ips, _ = run_paths(body_fn, init_env=dict(pre.env))
+            okf = bool(ips)
+            n_app = 0
+            for p in ips:
+                if p.raised:
+                    continue
+                rc = resolved_conds(p)
+                empty = implied(rc, lambda t: isinstance(t, ast.Call) and isinstance(t.func, ast.Attribute) and t.func.attr == 'isempty' and src(t.func.value) == x)
+                app = [e for e in p.events if e.kind == 'call' and e.target == L + '.append' and e.value and e.value[0] == Form.atom(x)]
+                if app:
+                    n_app += 1
+                    if empty is not False:
+                        okf = False          # appended without having been found non-empty
+                elif empty is False:
+                    okf = False              # a non-empty inlet that is not appended
+            okf = okf and n_app >= 1
     if okf:
         d2.ok('Stream.mix_from', 'the mixed list holds the non-empty stream inlets', f)
     else:
